@@ -3,7 +3,8 @@ import json, os, random, re, subprocess
 import common, diff, gen, progs
 from diff import Case
 
-THEOREMS = []
+THEOREMS = ["C08_lex_total", "C08_lexer_tokens_ok", "C08_parser_total", "C08_binder_total", "C08_handover_safe",
+            "C08_handover_covers_catalogue", "C08_front_end_never_panics", "C08_pipeline_panic_only_from_execution"]
 RULE = ("(i) catalogue-driven: for each of the functions, methods and constants reachable from the standard library "
         "(regenerated from the running code): the documented call, calls with a missing / surplus / duplicated / unknown / "
         "misordered argument, and one value of every kind the language can produce (bool, integers at 0/255/256/65535/"
